@@ -54,6 +54,10 @@ def main():
         rc, o = sh([PY, os.path.abspath(a.demo)], cwd=wt, env=env, timeout=600)
         res['demo_pristine_rc'] = rc
         rc, o = sh(['git', '-C', wt, 'apply', os.path.abspath(a.patch)])
+        if rc != 0:
+            # the tree moved on since the change was seeded (later fix: commits): merge it
+            rc, o = sh(f'patch -p1 --fuzz=3 --no-backup-if-mismatch < {os.path.abspath(a.patch)}', cwd=wt)
+            res['applied_with_fuzz'] = True
         res['apply_rc'] = rc
         if rc != 0:
             res['apply_out'] = o[-400:]
